@@ -11,6 +11,7 @@ import (
 	"context"
 	"errors"
 	"net"
+	"sync"
 	"time"
 
 	"github.com/anthdm/hollywood/actor"
@@ -108,4 +109,37 @@ func VerifReaderReceive(e *actor.Engine, wire [][]byte) (err error, panicked any
 		}
 	}()
 	return r.Receive(st), nil
+}
+
+// VerifReaderReceiveConcurrent lets ONE stream reader - Remote.Start registers a
+// single streamReader with the dRPC mux, and the server runs Receive on one
+// goroutine per inbound stream - serve len(wires) inbound streams at the same
+// moment (released together).  A Go panic on one of them is reported as a value;
+// a runtime fatal error (concurrent map access) kills the harness process, which
+// the driver records as the node dying.
+func VerifReaderReceiveConcurrent(e *actor.Engine, wires [][][]byte) (errs []error, panicked any) {
+	r := newStreamReader(&Remote{engine: e})
+	errs = make([]error, len(wires))
+	var wg sync.WaitGroup
+	var mu sync.Mutex
+	start := make(chan struct{})
+	for i := range wires {
+		wg.Add(1)
+		go func(i int) {
+			defer wg.Done()
+			defer func() {
+				if v := recover(); v != nil {
+					mu.Lock()
+					panicked = v
+					mu.Unlock()
+				}
+			}()
+			st := &verifStream{in: append([][]byte(nil), wires[i]...)}
+			<-start
+			errs[i] = r.Receive(st)
+		}(i)
+	}
+	close(start)
+	wg.Wait()
+	return
 }
